@@ -3,6 +3,7 @@ C19 — unreachable mutable storage, including cycles, is eventually reclaimed: 
 The mechanism model is C04's (`SteelVerif/C04/Model.lean`: free list, collector, combined machine).
 -/
 import SteelVerif.C04.Props
+import SteelVerif.C04.LemmasBound
 namespace SteelVerif.C19
 open SteelVerif.C04
 
@@ -156,5 +157,88 @@ theorem weak_box_cleared (P : Params) (E : Edges) (roots : List Val) (h : Heap) 
     obtain ⟨hcm, hca⟩ := readCell_some hc
     have := sweep_complete P E roots h c hcm (hca ▸ hun)
     simp [this]
+
+/-! ## heap_bounded — bounded live set ⇒ bounded number of slots, for any number of operations -/
+
+/-- The hypothesis "the live set at every full collection is at most `M`": at every step that may run a full
+collection (an allocation — policy — or an explicit collection) the number of slots it would mark is ≤ `M`. -/
+def LiveOK (M : Nat) (P : Params) (E : Edges) : MState → List Op → Prop
+  | _, [] => True
+  | s, op :: rest =>
+    (match op with
+      | .alloc v => markedCount E (v :: s.roots) s.heap ≤ M
+      | .gcFull => markedCount E s.roots s.heap ≤ M
+      | _ => True) ∧ LiveOK M P E (step P E s op).1 rest
+
+theorem step_bounded (M : Nat) (P : Params) (hc40 : 40 ≤ P.chunk) (hcM : P.chunk ≤ M) (E : Edges) (s : MState)
+    (hw : WF s.heap) (hb : BInv M P.resetLimit s.heap) (op : Op)
+    (hl : match op with
+      | .alloc v => markedCount E (v :: s.roots) s.heap ≤ M
+      | .gcFull => markedCount E s.roots s.heap ≤ M
+      | _ => True) : BInv M P.resetLimit (step P E s op).1.heap := by
+  cases op with
+  | alloc v => exact BInv_allocateGC P rfl hc40 hcM E s.roots v hw hb hl
+  | write a o v =>
+    show BInv M P.resetLimit (s.heap.write a v)
+    have : (s.heap.write a v).cells.length = s.heap.cells.length := by simp [Heap.write]
+    unfold BInv at *
+    rw [this]; exact hb
+  | read a o => exact hb
+  | addRoot v => exact hb
+  | dropRoot i => exact hb
+  | gcMinor => exact BInv_weakCollect _ hb
+  | gcFull => exact BInv_valueCollection P rfl hc40 hcM E s.roots true hb hl
+
+theorem run_bounded (M : Nat) (P : Params) (hc40 : 40 ≤ P.chunk) (hcM : P.chunk ≤ M) (E : Edges) (ops : List Op) :
+    ∀ s : MState, WF s.heap → BInv M P.resetLimit s.heap → LiveOK M P E s ops →
+      BInv M P.resetLimit (run P E s ops).1.heap := by
+  induction ops with
+  | nil => intro s _ hb _; exact hb
+  | cons op rest ih =>
+    intro s hw hb hl
+    exact ih _ (step_wf P (by omega) E s hw op) (step_bounded M P hc40 hcM E s hw hb op hl.1) hl.2
+
+/-- **heap_bounded.**  With `EXTEND_CHUNK ≥ 40` and an initial size between 40 and `2·M`: for EVERY operation
+list (allocations with the collector's policy, writes, root changes, explicit minor/full collections anywhere)
+in which every full collection finds at most `M ≥ EXTEND_CHUNK` live slots, the number of slots never exceeds
+`2·M·2^RESET_LIMIT` — a bound that does not depend on the number of operations — and `grow_count` stays within
+`1 … RESET_LIMIT+1`.  (For the constants of the code: `max(L, 25600) · 2^10` slots.) -/
+theorem heap_bounded (M : Nat) (P : Params) (hc40 : 40 ≤ P.chunk) (hcM : P.chunk ≤ M) (hi40 : 40 ≤ P.init)
+    (hiM : P.init ≤ 2 * M) (E : Edges) (ops : List Op) (hl : LiveOK M P E (MState.init P) ops) :
+    (run P E (MState.init P) ops).1.heap.cells.length ≤ 2 * M * 2 ^ P.resetLimit ∧
+    (run P E (MState.init P) ops).1.heap.growCount ≤ P.resetLimit + 1 := by
+  have hb0 : BInv M P.resetLimit (MState.init P).heap := by
+    have hlen : (Heap.new P).cells.length = P.init := by
+      simp [Heap.new, growBy_length]
+    refine ⟨by simp [MState.init, Heap.new, Heap.growBy], by simp [MState.init, Heap.new, Heap.growBy], ?_, ?_⟩
+    · show 40 ≤ (Heap.new P).cells.length; omega
+    · show (Heap.new P).cells.length ≤ 2 * M * 2 ^ ((Heap.new P).growCount - 1)
+      rw [hlen]
+      simp [Heap.new, Heap.growBy]
+      exact hiM
+  have hb := run_bounded M P hc40 hcM E ops (MState.init P) (WF_new P (by omega)) hb0 hl
+  obtain ⟨h1, h2, _, h4⟩ := hb
+  refine ⟨?_, h2⟩
+  calc (run P E (MState.init P) ops).1.heap.cells.length
+      ≤ 2 * M * 2 ^ ((run P E (MState.init P) ops).1.heap.growCount - 1) := h4
+    _ ≤ 2 * M * 2 ^ P.resetLimit := Nat.mul_le_mul_left _ (Nat.pow_le_pow_right (by omega) (by omega))
+
+/-- Non-vacuity: the constants of the code satisfy the side conditions (with `L = 1000` live slots), and the
+hypothesis is satisfiable for a run that collects. -/
+example : (40 ≤ ({} : Params).chunk) ∧ ({} : Params).chunk ≤ max 1000 25600 ∧ 40 ≤ ({} : Params).init ∧
+    ({} : Params).init ≤ 2 * max 1000 25600 := by decide
+
+example : LiveOK 100 demoP allEdges (MState.init demoP) [.gcMinor, .dropRoot 0] := ⟨trivial, trivial, trivial⟩
+
+/-- The marked count is what a collection finds live: every counted slot is reachable. -/
+theorem markedCount_le_reachable (E : Edges) (roots : List Val) (h : Heap) :
+    ∀ d ∈ ((h.weakCollect (extOf roots)).marked E roots).cells, d.reachable = true →
+      Reach E (h.weakCollect (extOf roots)).cells roots d.addr := by
+  intro d hd hr
+  have hcompl := markLoop_complete E (markAll (h.weakCollect (extOf roots)).cells) roots 0 d hd hr
+  rcases hcompl with ⟨e, he, _, her⟩ | hreach
+  · obtain ⟨e', _, rfl⟩ := List.mem_map.mp he
+    cases her
+  · exact Reach_markAll.mp hreach
 
 end SteelVerif.C19
